@@ -95,6 +95,30 @@ def gen_cases(rng, tier):
         for _ in range(rng.randint(1, 2)):
             pts += [f2b(rng.uniform(0, 12)) for _ in range(6)]
         cases.append(("c18", [7] + t + [f2b(rng.choice([1.5, 3.0, 6.0])), i % 2] + pts))
+    # fn 7 under shears and squeezes in which ONE row of the matrix is much longer than the other (y-shear, x-shear, thin
+    # squeeze): the stroker's precision must follow the longer row; geometry placed so that the picture stays in 64 x 64
+    for i in range(60 if tier == "quick" else 800):
+        kind = i % 4
+        big = rng.choice([12.0, 30.0, 40.0])
+        if kind == 0:      # y' = big * x + y: x within [0.1, 1.4]
+            t = [f2b(1.0), 0, f2b(big), f2b(1.0), f2b(rng.uniform(20, 30)), f2b(2.0)]
+            P = lambda: (rng.uniform(0.1, 1.4), rng.uniform(0, 12))
+        elif kind == 1:    # x' = x + big * y
+            t = [f2b(1.0), f2b(big), 0, f2b(1.0), f2b(2.0), f2b(rng.uniform(20, 30))]
+            P = lambda: (rng.uniform(0, 12), rng.uniform(0.1, 1.4))
+        elif kind == 2:    # squeeze: (x, y) -> (0.02 x + y, 0.02 y) + t
+            t = [f2b(0.02), f2b(1.0), 0, f2b(0.02), f2b(4.0), f2b(20.0)]
+            P = lambda: (rng.uniform(0, 400), rng.uniform(0, 50))
+        else:
+            t = [f2b(0.02), 0, f2b(1.0), f2b(0.02), f2b(20.0), f2b(4.0)]
+            P = lambda: (rng.uniform(0, 50), rng.uniform(0, 400))
+        p0 = P()
+        pts = [f2b(p0[0]), f2b(p0[1])]
+        for _ in range(rng.randint(1, 2)):
+            for _ in range(3):
+                q = P(); pts += [f2b(q[0]), f2b(q[1])]
+        width = rng.choice([1.5, 3.0, 6.0]) if kind < 2 else rng.choice([60.0, 150.0])
+        cases.append(("c18", [7] + t + [f2b(width), i % 2] + pts))
     # fn 6 at extreme magnitudes: a tiny path scaled up / a huge path scaled down to a few pixels
     for i in range(60 if tier == "quick" else 800):
         if i % 2 == 0:
